@@ -1,18 +1,19 @@
 #!/bin/bash
-# Build (and thereby cache) every harness test binary from the files on disk; offline.
+# Build (and thereby cache) the harness test binaries of every claimed check from the files on disk; offline.
 set -u
 cd /verif
 . ./env.sh
 mkdir -p bin out evidence/replays
+declare -A seen
 rc=0
-for pkg in $(cd harness && ls -d */ | tr -d / | grep -v '^kit$'); do
-  if ls harness/$pkg/*_test.go >/dev/null 2>&1; then
-    ( cd harness && go test -c -tags verif -o /verif/bin/setup.$pkg.test ./$pkg ) || rc=1
-    rm -f /verif/bin/setup.$pkg.test
-  fi
+for P in $(jq -r '.checks[].property_id' MANIFEST.json); do
+  pkg=$(grep -o "\[$P\]=[a-z]*" run.sh | head -1 | cut -d= -f2)
+  [ -z "$pkg" ] && continue
+  [ -n "${seen[$pkg]:-}" ] && continue
+  seen[$pkg]=1
+  dir=harness; [ "$pkg" = wasm ] && dir=harness-wasm
+  echo "building $dir/$pkg"
+  ( cd $dir && go test -c -tags verif -o /verif/bin/setup.$pkg.test ./$pkg ) || rc=1
+  rm -f /verif/bin/setup.$pkg.test
 done
-if [ -d harness-wasm ]; then
-  ( cd harness-wasm && go test -c -tags verif -o /verif/bin/setup.wasm.test ./wasm ) || rc=1
-  rm -f /verif/bin/setup.wasm.test
-fi
 exit $rc
